@@ -441,7 +441,7 @@ class HTTP1Connection(httputil.HTTPConnection):
             # the connection is going to be closed anyway).
             if (
                 self._request_start_line.version == "HTTP/1.0"
-                and self._request_headers.get("Connection", "").lower() == "keep-alive"
+                and "keep-alive" in _connection_options(self._request_headers)
                 and not self._disconnect_on_finish
             ):
                 headers["Connection"] = "Keep-Alive"
@@ -565,11 +565,9 @@ class HTTP1Connection(httputil.HTTPConnection):
     ) -> bool:
         if self.params.no_keep_alive:
             return False
-        connection_header = headers.get("Connection")
-        if connection_header is not None:
-            connection_header = connection_header.lower()
+        connection_options = _connection_options(headers)
         if start_line.version == "HTTP/1.1":
-            return connection_header != "close"
+            return "close" not in connection_options
         elif (
             "Content-Length" in headers
             or is_transfer_encoding_chunked(headers)
@@ -577,7 +575,7 @@ class HTTP1Connection(httputil.HTTPConnection):
         ):
             # start_line may be a request or response start line; only
             # the former has a method attribute.
-            return connection_header == "keep-alive"
+            return "keep-alive" in connection_options
         return False
 
     def _finish_request(self, future: "Optional[Future[None]]") -> None:
@@ -863,6 +861,14 @@ class HTTP1ServerConnection:
                 await asyncio.sleep(0)
         finally:
             delegate.on_close(self)
+
+
+def _connection_options(headers: httputil.HTTPHeaders) -> list[str]:
+    """Returns the lower-cased options of the Connection header.
+
+    Connection is a comma-separated list of case-insensitive options.
+    """
+    return [o.strip().lower() for o in headers.get("Connection", "").split(",")]
 
 
 DIGITS = re.compile(r"[0-9]+")
